@@ -1073,10 +1073,12 @@ class SX:
                 try:
                     return v.__pyvc_getattr__(self, attr, st, node)
                 except Unsupported:
-                    if self.spec_mode or not getattr(v, "__pyvc_module__", False):
+                    if self.spec_mode:
                         raise
-                    # a member of a modelled library module that the model does not cover
-                    return [R(st, Conc(Unknown("%s.%s" % (getattr(v, "__pyvc_module__"), attr))))]
+                    # a member of a modelled library module / object that the model does not cover: no contract
+                    who = getattr(v, "__pyvc_module__", None) or type(v).__name__
+                    self.uncontracted.append("%s.%s (line %s)" % (who, attr, getattr(node, "lineno", "?")))
+                    return [R(st, Conc(Unknown("%s.%s" % (who, attr))))]
             self.unsupported("attribute %s of concrete %r" % (attr, v), node)
         if isinstance(obj, Func):
             self.unsupported("attribute %s of function" % attr, node)
@@ -1089,6 +1091,10 @@ class SX:
                 return m
             if ("method", t.rname) in self.reg.hooks:
                 return [R(st, self.B.bound_method(self, obj, attr, node))]
+            if not self.spec_mode and not attr.startswith("__"):
+                # a member of the record type that the sidecar does not model: nothing is known about it
+                self.uncontracted.append("%s.%s (line %s)" % (t.rname, attr, getattr(node, "lineno", "?")))
+                return [R(st, Conc(Unknown("%s.%s" % (t.rname, attr))))]
             self.unsupported("attribute %s of record %s" % (attr, t.rname), node)
         if isinstance(t, V.Opt):
             # attribute access on None raises AttributeError
